@@ -50,21 +50,23 @@ MAX_REPORT_PER_SIGNATURE = 2
 
 
 def _configs(quick):
-    base = {"Locs": {"a", "b"}, "TokVs": {1, 2}, "Forces": {False}}
+    base = {"Locs": {"a", "b"}, "TokVs": {1, 2}, "Forces": {False}, "SameAddr": set()}
     if quick:
         return [
             ("2 peers, 4 row shapes", dict(base, Peers={1, 2}, Shapes={"absent", "valid", "notok", "dup"},
-                                           LocalLocs={"a"}, CtlDups={False}), False),
+                                           LocalLocs={"a"}, CtlDups={False}), "v1"),
         ]
     return [
         ("2 peers, 5 row shapes", dict(base, Peers={1, 2},
                                        Shapes={"absent", "valid", "nohid", "dup", "inv_valid"},
-                                       LocalLocs={"a", "b"}, CtlDups={False}), False),
+                                       LocalLocs={"a", "b"}, CtlDups={False}), "v1"),
         ("1 peer, all row shapes, control duplicate, forced", dict(base, Peers={1}, Shapes=set(ALL_SHAPES),
                                                                    LocalLocs={"a", "b"}, CtlDups={False, True},
-                                                                   Forces={False, True}), True),
+                                                                   Forces={False, True}), "both"),
         ("3 peers, present/absent, one location", dict(base, Peers={1, 2, 3}, Shapes={"absent", "valid"}, Locs={"a"},
-                                                       LocalLocs={"a"}, CtlDups={False}), True),
+                                                       LocalLocs={"a"}, CtlDups={False}), "both"),
+        ("2 peers, one behind the control node's address (peers_v2 native_port)",
+         dict(base, Peers={1, 2}, Shapes={"absent", "valid", "dup"}, LocalLocs={"a"}, CtlDups={False, True}, SameAddr={2}), "v2"),
     ]
 
 
@@ -151,7 +153,7 @@ def run(ctx):
 
     # ---- exhaustive configurations: TLC (base case + inductive step), then every pair replayed
     total_edges = covered_edges = 0
-    for name, consts, both_tables in _configs(ctx.quick):
+    for name, consts, tables in _configs(ctx.quick):
         label[0] = name
         t0 = time.time()
         first = ctx.quick and name == _configs(ctx.quick)[0][0]     # quick: this run doubles as the witness run
@@ -170,8 +172,8 @@ def run(ctx):
             ctx.note("vacuity_witnesses_reached", len(WITNESSES))
         timing["tlc:" + name] = round(time.time() - t0, 1)
         t0 = time.time()
-        for v2 in ((False, True) if (both_tables and not ctx.quick) else (False,)):
-            rp = rc.RefreshReplayer(consts["Peers"], rep, v2=v2)
+        for v2 in {"v1": (False,), "both": (False, True), "v2": (True,)}[tables]:
+            rp = rc.RefreshReplayer(consts["Peers"], rep, v2=v2, same_addr=consts["SameAddr"])
             cov, tot = rc.cover_refresh_edges(states, rp, ctx.rng, stop=rep.too_many)
             total_edges += tot
             covered_edges += cov
@@ -198,7 +200,7 @@ def run(ctx):
     label[0] = "scripted sequences over %d peers" % n_peers
     scripts = _gen_scripts(ctx.rng, n_scripts, n_peers)
     sconsts = {"Peers": set(range(1, n_peers + 1)), "Locs": {"a", "b", "c"}, "TokVs": {1, 2, 3}, "Shapes": set(ALL_SHAPES),
-               "LocalLocs": {"a", "b", "c"}, "CtlDups": {False, True}, "Forces": {False}}
+               "LocalLocs": {"a", "b", "c"}, "CtlDups": {False, True}, "Forces": {False}, "SameAddr": {n_peers}}
     t0 = time.time()
     cfg = tlc.write_cfg(os.path.join(ctx.scratch, "script.cfg"), init="ScriptInit", next="ScriptNext", constants=sconsts,
                         invariants=INVARIANTS, deadlock=False)
@@ -225,11 +227,19 @@ def run(ctx):
         by_sid.setdefault(st["sid"], []).append(st)
     if len(by_sid) != n_scripts or any(len(v) != 3 for v in by_sid.values()):
         raise tlc.MachineryError("TLC evaluated %d scripts (expected %d x 3 states)" % (len(by_sid), n_scripts))
+    # vacuity (Witness_SharedAddressRemoved on the scripted runs): a host behind the control node's address vanishes,
+    # in a script that goes through system.peers_v2
+    shared_removed = sum(1 for st in sts if st["sid"] % 2 == 0 and st["removed"].get(n_peers))
+    ctx.note("scripted_removals_of_a_host_sharing_the_control_address", shared_removed)
+    if not shared_removed:
+        raise tlc.MachineryError("no scripted sequence removes the host that shares the control node's address")
     t0 = time.time()
     ok_scripts = 0
     for sid in sorted(by_sid):
         seq = sorted(by_sid[sid], key=lambda s: s["l"])
-        rp = rc.RefreshReplayer(sconsts["Peers"], rep, v2=(sid % 2 == 0))
+        # even scripts through system.peers_v2 (where the last peer sits behind the control node's address, own native
+        # port), odd ones through system.peers (no port column: every host has its own address)
+        rp = rc.RefreshReplayer(sconsts["Peers"], rep, v2=(sid % 2 == 0), same_addr=sconsts["SameAddr"])
         rp.fresh()
         good = True
         for st in seq:
